@@ -475,7 +475,7 @@ class Space(metaclass=MetaSpace):
         if idims <= 0 or idims != dims:
             raise ValueError("Dimensions must be integers > 0")
         # Size of the hilbert space
-        self.size = dims
+        self.size = idims
         self.issuper = False
         # Super representation, should be an empty string except for SuperSpace
         self.superrep = None
